@@ -3,9 +3,17 @@ from harness import common, tstate, tsprop
 
 PROP = 'C09'
 DRIVER = 'TorState'
-LEAN_TARGETS = ['TxV.Props.C09']
-PROP_MODULES = ['TxV.Props.C09']
+LEAN_TARGETS = ['TxV.Props.C09', 'TxV.Props.SourceTie']
+PROP_MODULES = ['TxV.Props.C09', 'TxV.Props.SourceTie']
 AUDIT = 'Audit/C09.lean'
+
+
+def extract():
+    # the state words, event map and bootstrap queries of the source, for the tie lemmas in Props/SourceTie.lean
+    from harness import extract as _x
+    return _x.state_table()
+
+
 ANCHORS = ['txtorcon/torstate.py', 'txtorcon/circuit.py', 'txtorcon/attacher.py', 'txtorcon/interface.py']
 RULE = ('the C07 histories with an attacher installed, replaced, re-installed and removed at any position (set_attacher with the same, a '
         'different, or no attacher); for every stream seen for the first time the attacher answers one of: None, DO_NOT_ATTACH, a circuit object '
